@@ -14,7 +14,11 @@ if os.path.exists(MUT + "/resuite_results.txt"):
         m = re.match(r"(C\d\d) (m\d) suite2 rc=(\d+) (.*)", l)
         if m: resuite[(m.group(1), m.group(2))] = (int(m.group(3)), m.group(4).strip())
 # second-round changes that turned out to be the same edit as a first-round change for the same property are not kept twice
-DUP = {("C05", "m3"): "C05-m1", ("C06", "m3"): "C06-m1", ("C06", "m4"): "C06-m2", ("C17", "m3"): "C17-m2", ("C18", "m3"): "C18-m1"}
+DUP = {("C05", "m3"): "C05-m1", ("C06", "m3"): "C06-m1", ("C06", "m4"): "C06-m2", ("C17", "m3"): "C17-m2", ("C18", "m3"): "C18-m1",
+       # fourth round: the same edit as an earlier change for the same property
+       ("C01", "m7"): "C01-m3", ("C02", "m8"): "C02-m3", ("C03", "m7"): "C03-m4", ("C04", "m7"): "C04-m3", ("C05", "m8"): "C05-m5",
+       ("C06", "m7"): "C06-m1", ("C07", "m7"): "C07-m1", ("C07", "m8"): "C07-m3", ("C14", "m7"): "C14-m3", ("C17", "m7"): "C17-m5",
+       ("C18", "m7"): "C18-m4", ("C20", "m7"): "C20-m4", ("C20", "m8"): "C20-m5"}
 kept, dropped = [], []
 for d in sorted(glob.glob(MUT + "/C[0-9][0-9]")):
     pid = os.path.basename(d)
